@@ -10,6 +10,9 @@ use std::marker::PhantomData;
 /// rule N14: an explicit `panic!` is a deliberate abort (never returns).
 #[verifier::external_body] pub fn verif_abort() -> ! ensures false { panic!() }
 
+/// std: `impl<T> From<T> for T { fn from(t: T) -> T { t } }` (used by the written-out `?`, rule N15)
+pub assume_specification<T>[<T as From<T>>::from](t: T) -> (r: T) ensures r == t;
+
 // ---- opaque payloads -------------------------------------------------------------------
 /// serde_json::Value — opaque payload.
 #[verifier::external_body] pub struct Value { _p: u8 }
@@ -23,12 +26,21 @@ use vstd::std_specs::convert::IntoSpec;
 #[verifier::external_body] pub struct Duration { _p: u8 }
 impl Clone for Duration { #[verifier::external_body] fn clone(&self) -> (r: Self) ensures r == *self { unimplemented!() } }
 impl Copy for Duration {}
-pub uninterp spec fn dur_lt(a: Duration, b: Duration) -> bool;
+/// `a < b` etc. on Duration: an uninterpreted order (only its use is decided, not its arithmetic)
+pub uninterp spec fn dur_cmp(a: Duration, b: Duration) -> Option<core::cmp::Ordering>;
 pub uninterp spec fn dur_mul_f32(a: Duration, f: f32) -> Duration;
 impl Duration {
     #[verifier::external_body] pub fn mul_f32(self, f: f32) -> (r: Duration) ensures r == dur_mul_f32(self, f) { unimplemented!() }
-    /// stands for `a < b` (PartialOrd on Duration)
-    #[verifier::external_body] pub fn lt(&self, o: &Duration) -> (r: bool) ensures r == dur_lt(*self, *o) { unimplemented!() }
+}
+impl PartialEq for Duration { #[verifier::external_body] fn eq(&self, o: &Duration) -> (r: bool) { unimplemented!() } }
+impl PartialEqSpecImpl for Duration {
+    open spec fn obeys_eq_spec() -> bool { false }
+    open spec fn eq_spec(&self, o: &Duration) -> bool { true }
+}
+impl PartialOrd for Duration { #[verifier::external_body] fn partial_cmp(&self, o: &Duration) -> (r: Option<core::cmp::Ordering>) { unimplemented!() } }
+impl vstd::std_specs::cmp::PartialOrdSpecImpl for Duration {
+    open spec fn obeys_partial_cmp_spec() -> bool { true }
+    open spec fn partial_cmp_spec(&self, o: &Duration) -> Option<core::cmp::Ordering> { dur_cmp(*self, *o) }
 }
 
 // ---- HashMap<CowStr, V> (std::collections::HashMap keyed by string content) --------------
@@ -101,10 +113,6 @@ impl<T> OnceCell<T> {
 }
 
 // ---- SessionId randomness ---------------------------------------------------------------------
-impl PartialEqSpecImpl for SessionId {
-    open spec fn obeys_eq_spec() -> bool { true }
-    open spec fn eq_spec(&self, other: &SessionId) -> bool { *self == *other }
-}
 impl SessionId {
     /// `uuid::Uuid::new_v4()` — OS randomness; no postcondition is assumed about the value.
     #[verifier::external_body] pub fn random() -> (r: SessionId) { unimplemented!() }
